@@ -147,7 +147,39 @@ class HashTableGen:
                 out.append(ops)
         import random as _r
         det = _r.Random(12345)
-        return [sparsify(det, h) if i % 3 == 2 else h for i, h in enumerate(out)]
+        out = [sparsify(det, h) if i % 3 == 2 else h for i, h in enumerate(out)]
+        if focus in ("derived", "all"):
+            for conf_first in (True, False):
+                for n1 in (0, 1, 4):
+                    for n2 in (1, 3):
+                        h = self.recreate_history(det, conf_first, n1, n2, grow=2)
+                        out += [h, [h[0] + " obs=sparse"] + h[1:]]
+        return out
+
+    def recreate_history(self, rng, conf_first=True, n1=3, n2=3, grow=3, tail=0):
+        """a container on one allocator triple is destroyed and one on the other triple is created
+        immediately afterwards (no allocation in between, so the allocator may hand out the same
+        address), then derived arrays are built from the second one and grown"""
+        conf = f"new cap={rng.choice([1, 2, 16])} lf={rng.choice(LFS)} hash={rng.choice(HARNESS_HASHES)}"
+        first, second = (conf, "new_default") if conf_first else ("new_default", conf)
+        ops = [first] + [self._add(rng.randint(1, 30), rng.randint(1, 99)) for _ in range(n1)]
+        ops.append("destroy" if self.is_set else "destroy_table")
+        ops.append(second)
+        keys = [rng.randint(1, 30) for _ in range(n2)]
+        ops += [self._add(k, rng.randint(1, 99)) for k in keys]
+        if self.is_set:
+            ops += ["foreach", "it_new"] + ["it_next"] * (n2 + 1) + [self._contains(keys[0]), f"remove {keys[0]}"]
+        else:
+            ops += ["mk_keys to=1", "mk_values to=2"]
+            for i in range(grow):
+                ops += [f"arr_add {40 + i} o=1", f"arr_add {60 + i} o=2"]
+            ops += [f"get {keys[0]}", f"remove {keys[0]}", "mk_keys to=3"]
+        for _ in range(tail):
+            k = rng.randint(1, 30)
+            ops.append(rng.choice([self._add(k, rng.randint(1, 99)), self._contains(k), f"remove {k}"] +
+                                  ([] if self.is_set else [f"arr_add {rng.randint(1, 99)} o={rng.choice([1, 2])}", f"get {k}"])))
+        ops += ["observe", "destroy"]
+        return ops
 
     def fault_enumeration(self):
         """every allocation of every allocating op refused once.  Uses fail= explicitly, so it is not
@@ -173,7 +205,11 @@ class HashTableGen:
     def random(self, rng, n, tier, focus=None):
         out = []
         for _ in range(n):
-            h = self._one(rng, tier, focus)
+            if focus in ("derived", "all") and rng.random() < 0.12:
+                h = self.recreate_history(rng, rng.random() < 0.5, rng.randint(0, 6), rng.randint(1, 6),
+                                          grow=rng.randint(1, 4), tail=rng.randint(0, 12))
+            else:
+                h = self._one(rng, tier, focus)
             if rng.random() < 0.34:
                 h = sparsify(rng, h)
             out.append(h)
